@@ -357,7 +357,17 @@ fn body_seeded(ch: &Ch) -> Run {
   }
   let do_build = ch.flag("build_after_seed");
   let entry = ch.shape("entry", 3);
-  loader.add_text("https://x/root.ts", &format!("import \"./r{entry}.js\";\n"));
+  // how the root imports the seeded redirect source: plainly, or in a way the
+  // builder rejects up front (bytes import without the unstable flag, source-phase import of a non-wasm file)
+  let import_form = ch.shape("import_form", 3);
+  loader.add_text(
+    "https://x/root.ts",
+    &match import_form {
+      1 => format!("import b from \"./r{entry}.js\" with {{ type: \"bytes\" }};\n"),
+      2 => format!("import source s from \"./r{entry}.js\";\n"),
+      _ => format!("import \"./r{entry}.js\";\n"),
+    },
+  );
   let mut graph = ModuleGraph::new(GraphKind::All);
   graph.fill_from_lockfile(deno_graph::FillFromLockfileOptions {
     redirects: seeded.iter().map(|(a, b)| (a.as_str(), b.as_str())),
@@ -377,12 +387,12 @@ fn body_seeded(ch: &Ch) -> Run {
   let extra: Vec<_> = (0..20).map(|i| url(&r(i))).collect();
   let checks = check_lookups(&graph, &extra, shape_class, &mut run);
   run.evals = checks as u64;
-  run.state_key = hash_json(&json!([desc, do_build, entry]));
+  run.state_key = hash_json(&json!([desc, do_build, entry, import_form]));
   run.nontrivial = do_build;
   let o = obs(&graph);
   run.outcome_key = hash_json(&json!([o["redirects"], o["slots"].as_object().map(|m| m.keys().collect::<Vec<_>>())]));
   if ch.describe() {
-    run.sample = Some(json!({"world": desc, "build": do_build, "entry": entry, "redirects": o["redirects"]}));
+    run.sample = Some(json!({"world": desc, "build": do_build, "entry": entry, "import_form": import_form, "redirects": o["redirects"]}));
   }
   run
 }
